@@ -53,5 +53,11 @@ CHECKS = {
   text="Every document with 1-2 targets of 8 kinds ((name)= and {#name} on paragraph/heading, directive :name:, heading slug, duplicate titles, mixed-case declaration, explicit name shadowing a slug) in 4 nesting contexts and one link (4 forms x existing/missing/suffixed/case-variant names, 4 contexts, before/after) or two links is rendered; each link must yield exactly one reference whose refid belongs to the node the generator attached that name to, keep explicit (nested) text, be filled with the target's title or '#name', and a missing target must give exactly one [myst.xref_missing] warning per link at the link's line.",
   note="Trusted: the lookup model; case-variant spellings are unspecified (either resolution or one warning); duplicate explicit names not generated; docutils front end (Sphinx cross-document resolution is C12).",
  ),
+ "C13": dict(
+  category="model_checking",
+  technique="exhaustive enumeration of the full product field x value pool x entry point (constructor, copy, front matter, docutils option strings) and of field pairs, executed on the real validators/merge code against a table of documented types and canonical forms; differential doctree comparison global vs front-matter setting",
+  text="All 30 fields x 43 values of every JSON/YAML shape are pushed through MdParserConfig(...), copy() and merge_file_level (under myst: and, for html_meta/substitutions, at top level) over a non-default global: accepted iff the documented type admits the value, stored in canonical form at every entry point, exactly one topmatter warning and no change for an invalid value, other fields and the global object untouched; all ordered field pairs with valid/invalid values; 43 docutils option spellings through OptionParser+create_myst_config; 26 effect documents rendered under the global and under the front-matter setting must give identical doctrees and warnings.",
+  note="Trusted: SPEC table of documented types (unspecified: bool-for-int, None for heading_anchors, non-list iterables for name lists, linkify/gfm); global_only fields, commonmark_only, sub_delimiters, ref_domains excluded from the effect clause; Sphinx conf values are covered only through the shared MdParserConfig constructor.",
+ ),
 }
 NOT_APPLICABLE = {}
